@@ -81,12 +81,48 @@ def rule_of(url):
     return u
 
 
+# The CSRF service each operation belongs to (the page that offers the operation issues tokens for it). Operations that
+# are not listed check no CSRF token: the users API (bearer token only) and DELETE /stream/<pk>.
+SERVICE = {
+    'create stream (json)': 'streams', 'create stream (form)': 'streams', 'edit stream (json)': 'streams',
+    'edit stream (form)': 'streams', 'stream defaults': 'streams', 'delete stream (POST form)': 'streams',
+    'delete stream (DELETE /delete)': 'streams', 'upload': 'upload', 'index file': 'files', 'edit media': 'files',
+    'delete media (DELETE)': 'files', 'delete media (POST form)': 'files', 'delete media (DELETE /delete)': 'files',
+    'add key (PUT computed)': 'keys', 'add key (PUT explicit)': 'keys', 'add key (POST form)': 'keys', 'edit key': 'keys',
+    'delete key (DELETE)': 'keys', 'delete key (POST form)': 'keys', 'create mps': 'streams', 'edit mps': 'streams',
+    'delete mps': 'streams',
+}
+
+
 def template_item(arg):
     ti, tier = arg
     env = Env.get()
     acc = core.Acc()
     t = env.templates[ti]
     changed_by = set()
+    if t['name'] in SERVICE:
+        # "only for the service it was issued for ... never after modification": as the role that may perform the
+        # operation, with a token of every other service and with text that is no token at all
+        role = 'media'
+        labels = {}
+        for label, tok in env.roles[role].tokens:
+            labels.setdefault(label, tok)
+        for label, tok in list(labels.items()) + [('no-token-at-all', 'garbage'), ('empty', '')]:
+            if label == SERVICE[t['name']]:
+                continue
+            for bearer in (True, False):
+                r, diff = env.trial(role, lambda rc: mgmt.issue(env.w, rc, t, tok, bearer=bearer))
+                acc.count('evaluations')
+                acc.count('transitions')
+                acc.state((t['name'], 'service', label, bearer, tuple(sorted(diff))))
+                acc.nontriv((t['name'], 'service', label, bearer))
+                if diff:
+                    acc.violation(f"C15|csrf-service|{t['method']} {rule_of(t['url'])}|token-of={label}",
+                                  f"{t['name']}: {t['method']} {t['url']} as {role} with a token issued for {label!r} (the "
+                                  f"operation belongs to {SERVICE[t['name']]!r}) answered {r.status} and changed "
+                                  f"{sorted(diff)}",
+                                  {'kind': 'template', 'ti': ti, 'name': t['name'], 'role': role, 'token_index': None,
+                                   'bearer': bearer, 'service_label': label})
     for role in mgmt.ROLES:
         toks = [None] + env.tokens_of(role, all_tokens=(tier != 'quick'))
         # the once-decoded spelling of each token is in the alphabet too
